@@ -412,6 +412,10 @@ class Builder(object):
             f_t = simp(self.t(fn))
         if ctext in TRANSPARENT_CALLS and len(args) >= 1 and not (self.strict_casts and (kws or len(args) > 1)):
             return self._unsimp(args[0])     # a plain conversion; under strict_casts a dtype=/copy= argument keeps it visible as a cast
+        if isinstance(fn, ast.Attribute) and fn.attr == 'get' and 1 <= len(args) <= 2 and not kws and isinstance(f_t, tuple) and f_t[0] == 'attr':
+            # d.get(k, default)  is  d[k] if k in d else default   (mapping protocol)
+            d_ = f_t[1]
+            return ('ifexp', mk_cmp('in', args[0], d_), ('sub', d_, args[0]), args[1] if len(args) == 2 else ('const', None))
         if ctext == 'range' and len(args) == 2 and not kws and args[0] == num(0):
             args = args[1:]                # range(0, n) is range(n)
         if ctext in SQRT_CALLS and len(args) == 1:
